@@ -65,7 +65,7 @@ def build_case(cid, rng, dynamic, force_async=False, no_send=False, probes=False
                 m.lifetimes = [l for l in m.lifetimes if l != "'a"]
     # helper leaf deps the impl fns may require of Impl<App>
     helpers = []
-    L = tg.support_for(t.methods)
+    L = tg.support_for(t.methods, t)
     same_named = rng.random() < 0.45
     leaf_impls = []
     for i in range(rng.randint(0, 2) if not same_named else 2):
